@@ -152,41 +152,34 @@ Proof.
   match goal with |- s_closed (if ?x then _ else _) = _ => destruct x end; cbn; exact K3.
 Qed.
 
-Lemma linv_reserve : forall b c s p k acl inj, 0 <= c_ttl c -> (b = true -> inj <> 2) -> (k = 0 \/ k = 1) ->
+Lemma linv_reserve : forall b c s p k acl inj, 0 <= c_ttl c ->
   linv b s -> linv b (fst (handle_reserve c s p k acl inj)).
 Proof.
-  intros b c s p k acl inj Httl Hrace Hk L. unfold handle_reserve.
+  intros b c s p k acl inj Httl L. unfold handle_reserve.
   destruct (negb (s_link s p k) || s_closed s) eqn:E0; [exact L|].
   destruct (negb (mem_ok_always c (s_mem s) maxMessageSize)); [exact L|].
   destruct (a_relayed (addr_of c p k)); [exact L|]. cbv zeta.
-  apply orb_false_iff in E0. destruct E0 as [El Ecl]. apply negb_false_iff in El.
+  apply orb_false_iff in E0. destruct E0 as [El Ecl].
   set (s1 := if inj =? 2 then close_peer c (advance_to c s (s_now s + 1)) p else s).
   assert (L1 : linv b s1) by (unfold s1; destruct (inj =? 2); [apply linv_close_peer, linv_advance|]; exact L).
   assert (Ecl1 : s_closed s1 = false).
   { unfold s1. destruct (inj =? 2); [|exact Ecl]. unfold close_peer. rewrite !close_conn_closed, advance_closed. exact Ecl. }
-  assert (Cn : b = true -> connected s1 p = true).
-  { intros Hb. specialize (Hrace Hb). unfold s1. apply Z.eqb_neq in Hrace. rewrite Hrace.
-    unfold connected. destruct Hk; subst k; rewrite El; [reflexivity | apply orb_true_r]. }
   destruct (negb acl); [exact L1|].
+  destruct (negb (connected s1 p)) eqn:Ecn; [exact L1|]. apply negb_false_iff in Ecn.
   unfold c_reserve. cbv zeta.
-  set (s1c := c_cleanup_peer (c_cleanup s1 (s_now s1)) p).
-  assert (Lc : linv b s1c) by (eapply linv_proj; [|exact L1]; reflexivity).
-  repeat match goal with |- linv b (fst (let '(_, _) := (if ?x then (s1c, false) else _) in _)) =>
-    destruct x; [exact Lc|] end.
-  cbn [negb].
-  assert (G : forall sx, lproj sx = lproj s1c ->
-     linv b (set_rtag (set_rsvp sx (upd (s_rsvp sx) p (Some (s_now s1 + c_ttl c)))) (upd (s_rtag sx) p true))).
-  { intros sx Px. unfold lproj in Px. inversion Px as [[X1 X2 X3 X4]].
-    destruct Lc as (G1 & G2 & G3). unfold linv, connected in *. cbn [set_rtag set_rsvp s_rsvp s_closed s_now s_link].
-    rewrite X1, X2, X3, X4.
-    change (s_closed s1c) with (s_closed s1) in *. change (s_now s1c) with (s_now s1) in *.
-    change (s_link s1c) with (s_link s1) in *. change (s_rsvp s1c) with (s_rsvp s1) in *.
-    split; [rewrite Ecl1; discriminate | split].
-    - intros q e Hr. unfold upd in Hr. destruct (q =? p); [|apply (G2 q), Hr]. inversion Hr; subst e.
-      pose proof (last_tick_le (s_now s1)). lia.
-    - intros Hb q Hr. unfold upd in Hr. destruct (q =? p) eqn:E; [|apply (G3 Hb q Hr)].
-      apply Z.eqb_eq in E; subst q. apply (Cn Hb). }
-  destruct (inj =? 2); cbn [fst]; apply G; reflexivity.
+  set (s0 := c_cleanup s1 (s_now s1)).
+  assert (L0 : linv b s0) by (eapply linv_proj; [|exact L1]; reflexivity).
+  repeat match goal with |- linv b (fst (let '(_, _) := (if ?x then (s0, false) else _) in _)) =>
+    destruct x; [exact L0|] end.
+  cbn [negb fst].
+  destruct L0 as (G1 & G2 & G3). unfold linv, connected in *. cbn [set_rtag set_rsvp set_cons c_cleanup_peer s_rsvp s_closed s_now s_link].
+  change (s_closed s0) with (s_closed s1) in *. change (s_now s0) with (s_now s1) in *.
+  change (s_link s0) with (s_link s1) in *. change (s_rsvp s0) with (s_rsvp s1) in *.
+  split; [rewrite Ecl1; discriminate | split].
+  - intros q e Hr. unfold upd in Hr. destruct (q =? p); [|apply (G2 q), Hr]. inversion Hr; subst e.
+    pose proof (last_tick_le (s_now s1)). lia.
+  - intros Hb q Hr. unfold upd in Hr. destruct (q =? p) eqn:E; [|apply (G3 Hb q Hr)].
+    apply Z.eqb_eq in E; subst q. exact Ecn.
 Qed.
 
 Lemma linv_connect : forall b c s src sa dst acl dm sm dc, linv b s ->
@@ -218,16 +211,15 @@ Lemma nk_01 : forall k, nk k = 0 \/ nk k = 1.
 Proof. intros. unfold nk. destruct (k =? 0); auto. Qed.
 
 Lemma linv_apply_op : forall b c s o, 0 <= c_ttl c ->
-  (b = true -> forall p k acl inj, o = OReserve p k acl inj -> inj <> 2) ->
   linv b s -> linv b (fst (apply_op c s o)).
 Proof.
-  intros b c s o Httl Hr L. destruct o; cbn [apply_op fst].
+  intros b c s o Httl L. destruct o; cbn [apply_op fst].
   - destruct L as (L1 & L2 & L3). unfold linv, connected. cbn. refine (conj L1 (conj L2 _)).
     intros Hb q Hq. specialize (L3 Hb q Hq). unfold connected in L3.
     apply orb_true_iff in L3. apply orb_true_iff. destruct L3 as [L3 | L3]; rewrite L3;
       [left | right]; destruct ((q =? p) && _); reflexivity.
   - apply linv_close_conn, L.
-  - apply linv_reserve; [exact Httl | intros Hb; eapply Hr; [exact Hb | reflexivity] | apply nk_01 | exact L].
+  - apply linv_reserve; [exact Httl | exact L].
   - apply linv_connect, L.
   - unfold send. destruct (find_circ s cid); [|exact L]. cbv zeta. destruct (_ || _); [exact L|].
     destruct (dir =? 0); (eapply linv_proj; [apply settle_l | exact L]).
@@ -243,20 +235,14 @@ Proof.
     + intros Hb q Hq. destruct (s_rsvp s q); contradiction.
 Qed.
 
-Definition race_free (ops : list (Z * op * Z)) : Prop :=
-  forall t p k acl inj tend, In (t, OReserve p k acl inj, tend) ops -> inj <> 2.
-
 Lemma linv_init : forall b, linv b init_st.
 Proof. intros b. unfold linv, init_st. cbn. repeat split; intros; try discriminate. contradiction. Qed.
 
-Lemma linv_run : forall b c ops s, 0 <= c_ttl c -> (b = true -> race_free ops) -> linv b s -> linv b (run c s ops).
+Lemma linv_run : forall b c ops s, 0 <= c_ttl c -> linv b s -> linv b (run c s ops).
 Proof.
-  intros b c ops. induction ops as [|[[t o] tend] r IH]; intros s Httl Hrf L; [exact L|].
-  cbn [run]. apply IH; [exact Httl | intros Hb t' p k acl inj tend' Hin; eapply (Hrf Hb); right; exact Hin |].
-  unfold step.
-  assert (L1 : linv b (fst (apply_op c (advance_to c s t) o))).
-  { apply linv_apply_op; [exact Httl | | apply linv_advance, L].
-    intros Hb p k acl inj ->. eapply (Hrf Hb). left. reflexivity. }
+  intros b c ops. induction ops as [|[[t o] tend] r IH]; intros s Httl L; [exact L|].
+  cbn [run]. apply IH; [exact Httl|]. unfold step.
+  pose proof (linv_apply_op b c (advance_to c s t) o Httl (linv_advance b c s t L)) as L1.
   destruct (apply_op c (advance_to c s t) o) as [s1 obs]. cbn [fst] in *. apply linv_advance, L1.
 Qed.
 
@@ -267,15 +253,15 @@ Lemma expired_collected_l : forall c ops, 0 <= c_ttl c ->
   (s_closed s = true -> forall p, s_rsvp s p = None).
 Proof.
   intros c ops Httl s.
-  destruct (linv_run false c ops init_st Httl ltac:(discriminate) (linv_init false)) as (L1 & L2 & _).
+  destruct (linv_run false c ops init_st Httl (linv_init false)) as (L1 & L2 & _).
   split; assumption.
 Qed.
 
-Lemma gone_on_disconnect_partial_l : forall c ops, 0 <= c_ttl c -> race_free ops ->
+Lemma gone_on_disconnect_l : forall c ops, 0 <= c_ttl c ->
   let s := run c init_st ops in forall p, connected s p = false -> s_rsvp s p = None.
 Proof.
-  intros c ops Httl Hrf s p Hc.
-  destruct (linv_run true c ops init_st Httl (fun _ => Hrf) (linv_init true)) as (_ & _ & L3).
+  intros c ops Httl s p Hc.
+  destruct (linv_run true c ops init_st Httl (linv_init true)) as (_ & _ & L3).
   destruct (s_rsvp s p) eqn:E; [|reflexivity]. fold s in L3.
   assert (H : s_rsvp s p <> None) by (rewrite E; discriminate).
   rewrite (L3 eq_refl p H) in Hc. discriminate.
